@@ -151,21 +151,26 @@ def r1(ctx, new):
             if v.tag == 'const':
                 tag = v[1]
         tags[target or 'chain%d' % n] = tag
-        wr = [e for e in evs if e.tag == 'ev' and e[1] == 'call' and e[2].endswith('write_u32')]
-        le = any('LittleEndian' in callee_name(t2) for _, t2 in ctx.calls(new) if callee_decl(t2).endswith('write_u32'))
+        # the index bytes: byteorder's LittleEndian::write_u32 or copy_from_slice(&idx.to_le_bytes())
+        wr = [e for e in evs if e.tag == 'ev' and e[1] == 'call' and (e[2].endswith('write_u32') or e[2].split('::')[-1] in ('copy_from_slice', 'clone_from_slice'))]
+        le = False
         idx_ok = False
         det = ''
         if wr:
             val = wr[0][3][-1]
+            if wr[0][2].endswith('write_u32'):
+                le = any('LittleEndian' in callee_name(t2) for _, t2 in ctx.calls(new) if callee_decl(t2).endswith('write_u32'))
+            else:
+                le = any(x.tag == 'call' and x[1].endswith('<impl u32>::to_le_bytes') for x in walk(val))
             conv = [x for x in walk(val) if x.tag == 'call' and x[1].endswith('try_from')]
             idxs = [x for x in walk(val) if x.tag == 'index']
             idx_ok = bool(conv) and bool(idxs) and not ctx.adapters(val)
             det = short(val, 100)
-        # the slice written is [1..5]
-        rng_ok = any(callee_decl(t2).endswith('index_mut') and canon(ctx.args(new, b2)[1]) == 'range(1,5)' for b2, t2 in ctx.calls(new))
+        # the bytes written are label[1..5]
+        rng_ok = any(callee_decl(t2).endswith('index_mut') and canon(ctx.args(new, b2)[1]) in ('range(1,5)', 'range(1,None)') for b2, t2 in ctx.calls(new))
         rep.check(ok_shape and len(wr) == 1 and le and idx_ok and rng_ok, 'R-C11-1', 'R-C11-1/chain%d/label' % n,
                   'label %d is [tag, LE32(party index)] with the party index = checked u32 of the loop index (%s)' % (n, det),
-                  'label %d: 5-byte array=%s, one little-endian write_u32=%s/%s, into bytes 1..5=%s, index is the loop index=%s (%s)' % (n, ok_shape, len(wr), le, rng_ok, idx_ok, det), where)
+                  'label %d: 5-byte array=%s, one little-endian 4-byte write=%s/%s, into bytes 1..5=%s, index is the loop index=%s (%s)' % (n, ok_shape, len(wr), le, rng_ok, idx_ok, det), where)
     rep.check(tags.get('g_vec') == 0x47 and tags.get('h_vec') == 0x48, 'R-C11-1', 'R-C11-1/tags', 'the G vector uses tag 0x47 (\'G\') and the H vector tag 0x48 (\'H\')',
               'label tags by target vector: %s (expected g_vec: 0x47, h_vec: 0x48)' % {k: (hex(v) if isinstance(v, int) else v) for k, v in tags.items()}, ctx.where(new))
     # the loop ranges over all parties: zip(g_vec.iter_mut(), h_vec.iter_mut()).enumerate()
